@@ -216,6 +216,8 @@ class Resolver:
             kws = [(k.arg, T(k.value)) for k in e.keywords]
             if ft[0] == "attr" and ft[1] in (("name", "operator"), ("name", "_operator")) and ft[2] in OPERATOR_MODULE and len(args) == 2 and not kws:
                 return ("op", OPERATOR_MODULE[ft[2]], tuple(args))  # operator.lt(a, b) is a < b
+            if ft[0] == "opfn" and len(args) == 2 and not kws:
+                return ("op", ft[1], tuple(args))  # `from operator import lt`, or an entry of a module table of such
             if isinstance(f, ast.Name) and not args and not kws:
                 g = self.m.funcs.get(self.fn.qual + "." + f.id)
                 if g is not None:
@@ -232,7 +234,12 @@ class Resolver:
         if isinstance(e, ast.Subscript):
             if isinstance(e.slice, ast.Slice):
                 return ("op", "slice", (T(e.value),))
-            return ("sub", T(e.value), T(e.slice))
+            base, key = T(e.value), T(e.slice)
+            if base[0] == "dict" and key[0] == "const":
+                for k, v in base[1]:
+                    if k == key:
+                        return v  # lookup of a constant key in a constant module table
+            return ("sub", base, key)
         if isinstance(e, ast.Tuple):
             return ("tuple", tuple(T(x) for x in e.elts))
         if isinstance(e, (ast.List, ast.Set)):
@@ -348,6 +355,9 @@ class Resolver:
             lit = self._module_literal(name)
             if lit is not None:
                 return lit
+            imp = self._module_import(name)
+            if imp is not None and imp[0] in ("operator", "_operator") and imp[1] in OPERATOR_MODULE:
+                return ("opfn", OPERATOR_MODULE[imp[1]])
             return ("name", name)
         reaching = None
         if self.flow and at is not None:
@@ -557,6 +567,30 @@ class Resolver:
             return None
         return alts[0] if len(alts) == 1 else ("phi", tuple(alts))
 
+    def _module_import(self, name):
+        """(module, original name) when `name` is bound at module level by one `from module import original [as name]`
+        and by nothing else."""
+        cache = self.m.__dict__.setdefault("_module_imports", {})
+        key = (self.fn.path, name)
+        if key not in cache:
+            out = None
+            tree = self.m.trees.get(self.fn.path, (None, None))[0]
+            if tree is not None:
+                binds = []
+                for st in tree.body:
+                    if isinstance(st, ast.ImportFrom):
+                        binds += [(st.module, al.name) for al in st.names if (al.asname or al.name) == name]
+                    elif isinstance(st, ast.Import):
+                        binds += [None for al in st.names if (al.asname or al.name).split(".")[0] == name]
+                    elif isinstance(st, (ast.FunctionDef, ast.ClassDef)) and st.name == name:
+                        binds.append(None)
+                    elif any(isinstance(x, ast.Name) and isinstance(x.ctx, ast.Store) and x.id == name for x in ast.walk(st) if not isinstance(st, (ast.FunctionDef, ast.ClassDef))):
+                        binds.append(None)
+                if len(binds) == 1 and binds[0] is not None and binds[0][0]:
+                    out = binds[0]
+            cache[key] = out
+        return cache[key]
+
     def _module_literal(self, name):
         """A module-level constant bound once to a literal (number, string, tuple/list of such)."""
         cache = getattr(self.m, "_module_literals", None)
@@ -577,11 +611,34 @@ class Resolver:
                         return ("const", e.value)
                     if isinstance(e, (ast.Tuple, ast.List)) and all(isinstance(x, ast.Constant) for x in e.elts):
                         return ("tuple" if isinstance(e, ast.Tuple) else "list", tuple(("const", x.value) for x in e.elts))
+                    if isinstance(e, ast.Name):
+                        imp = self._module_import(e.id)
+                        if imp is not None and imp[0] in ("operator", "_operator") and imp[1] in OPERATOR_MODULE:
+                            return ("opfn", OPERATOR_MODULE[imp[1]])
+                    if isinstance(e, ast.Attribute) and isinstance(e.value, ast.Name) and e.value.id in ("operator", "_operator") and e.attr in OPERATOR_MODULE:
+                        return ("opfn", OPERATOR_MODULE[e.attr])
                     return None
 
                 out = lit(v)
+                if out is None and isinstance(v, ast.Dict) and v.keys and all(isinstance(k, ast.Constant) for k in v.keys) and not self._module_mutates(tree, name):
+                    # a constant table: {'>': gt, ...} / {'>': 'greater than', ...}
+                    items = tuple((("const", k.value), lit(x)) for k, x in zip(v.keys, v.values))
+                    if all(x is not None for _, x in items) and len({k for k, _ in items}) == len(items):
+                        out = ("dict", items)
         cache[key] = out
         return out
+
+    @staticmethod
+    def _module_mutates(tree, name):
+        """Does any code of the module store into / call a method of / rebind the module-level table `name`?"""
+        for n in ast.walk(tree):
+            if isinstance(n, ast.Subscript) and isinstance(n.ctx, (ast.Store, ast.Del)) and isinstance(n.value, ast.Name) and n.value.id == name:
+                return True
+            if isinstance(n, ast.Call) and isinstance(n.func, ast.Attribute) and isinstance(n.func.value, ast.Name) and n.func.value.id == name and n.func.attr not in ("get", "keys", "values", "items", "copy"):
+                return True
+            if isinstance(n, ast.Global) and name in n.names:
+                return True
+        return False
 
     # ------------------------------------------------------------------ fields
     def field_stores(self, attr, cls=None):
